@@ -61,6 +61,10 @@ var templates = []string{
 	`permit (principal, action, resource) when { resource.hasTag("k") && resource.getTag("k") == "v" };`,
 	`permit (principal, action, resource) when { if context.a then principal in [User::"a", Group::"b"] else !(resource is Doc) };`,
 	`permit (principal, action, resource) when { datetime("2024-01-01").offset(duration("1d")).toDate() <= datetime("2024-02-29T12:34:56Z") };`,
+	// identifiers that begin with (or are one letter short of) a reserved word
+	`permit (principal, action, resource) when { context.isAdmin && principal has index && context.info.hash == "x" && resource.likes > 1 };`,
+	`forbid (principal, action, resource) unless { context has ifx || context.thenx == context.elsewhere || {inner: 1, truey: 2, falsey: 3}.inner == 1 };`,
+	`@index("i") @info("n") permit (principal is Isolde, action, resource is Inbox) when { principal.tru && resource.fals && context.i && context.like_ };`,
 }
 
 type document struct {
